@@ -161,6 +161,8 @@ def gen_shapes(tier, seed):
         for m in range(M):
             npos = rng.choice((1, 1, 2))
             pos = [["xy"[q], rng.choice(terms), q == 1 and rng.random() < 0.4] for q in range(npos)]
+            if rng.random() < 0.15:
+                pos[0][0] = "cls"          # an ordinary function whose first parameter happens to be called cls: dispatched like any other
             kw = []
             r = rng.random()
             if r < 0.25:
